@@ -94,6 +94,15 @@ func errFromOS(err error) error {
 	}
 }
 
+// errFromOSDest converts an error returned while creating a destination: a
+// missing or non-directory parent is a conflict as far as WebDAV is concerned.
+func errFromOSDest(err error) error {
+	if errors.Is(err, fs.ErrNotExist) || errors.Is(err, syscall.ENOTDIR) {
+		return NewHTTPError(http.StatusConflict, stripPaths(err))
+	}
+	return errFromOS(err)
+}
+
 func (fs LocalFileSystem) Stat(ctx context.Context, name string) (*FileInfo, error) {
 	p, err := fs.localPath(name)
 	if err != nil {
@@ -165,6 +174,9 @@ func (fs LocalFileSystem) Create(ctx context.Context, name string, body io.ReadC
 	}
 	fi, _ = fs.Stat(ctx, name)
 	created = fi == nil
+	if fi != nil && fi.IsDir {
+		return nil, false, NewHTTPError(http.StatusMethodNotAllowed, fmt.Errorf("webdav: cannot write to a collection"))
+	}
 
 	if err := checkConditionalMatches(fi, opts.IfMatch, opts.IfNoneMatch); err != nil {
 		return nil, false, err
@@ -172,7 +184,7 @@ func (fs LocalFileSystem) Create(ctx context.Context, name string, body io.ReadC
 
 	wc, err := os.Create(p)
 	if err != nil {
-		return nil, false, errFromOS(err)
+		return nil, false, errFromOSDest(err)
 	}
 	defer wc.Close()
 
@@ -233,10 +245,8 @@ func copyRegularFile(src, dst string, perm os.FileMode) error {
 	defer srcFile.Close()
 
 	dstFile, err := os.OpenFile(dst, os.O_RDWR|os.O_CREATE|os.O_TRUNC, perm)
-	if os.IsNotExist(err) {
-		return NewHTTPError(http.StatusConflict, err)
-	} else if err != nil {
-		return errFromOS(err)
+	if err != nil {
+		return errFromOSDest(err)
 	}
 	defer dstFile.Close()
 
